@@ -156,14 +156,24 @@ impl ToLatex for CompoundVariable {
 
 impl fmt::Display for CompoundVariable {
     fn fmt(&self, f: &mut fmt::Formatter<'_>) -> fmt::Result {
+        // a base without letters (`_{i}`) has no bare spelling of its indexes:
+        // `_i` is a simple variable
+        let bare_allowed = !self.name.trim_start_matches('_').is_empty();
         let indexes = self
             .indexes
             .iter()
             .map(|i| match i {
+                _ if !bare_allowed => format!("{{{}}}", i),
                 PreExp::Primitive(p) => match p.value() {
-                    Primitive::Number(n) => n.to_string(),
-                    Primitive::PositiveInteger(n) => n.to_string(),
-                    Primitive::Integer(n) => n.to_string(),
+                    // only a whole, non-negative number within the integer
+                    // range reads back as an index when written bare
+                    Primitive::Number(n)
+                        if n.fract() == 0.0 && *n >= 0.0 && *n < i64::MAX as f64 =>
+                    {
+                        n.to_string()
+                    }
+                    Primitive::PositiveInteger(n) if *n <= i64::MAX as u64 => n.to_string(),
+                    Primitive::Integer(n) if *n >= 0 => n.to_string(),
                     //literal name fragments such as the _2 in set_A__2; any other
                     //string index was written as {"a"} and must stay a string
                     Primitive::String(s)
@@ -175,7 +185,9 @@ impl fmt::Display for CompoundVariable {
                     }
                     _ => format!("{{{}}}", i),
                 },
-                PreExp::Variable(name) => name.value().clone(),
+                // a name with a leading underscore would read back as a literal
+                // name fragment when written bare
+                PreExp::Variable(name) if !name.value().starts_with('_') => name.value().clone(),
                 _ => format!("{{{}}}", i),
             })
             .collect::<Vec<String>>();
